@@ -305,13 +305,37 @@ def ob_statements():
                             ('function', 'block', False), ('block', 'block', False)):
         ok = scenario(prev, new)
         if ok != want: bad.append({'case': f'x declared in {prev} scope, again in {new} scope', 'accepted': ok, 'rule_says': want})
+    # every sequence of up to three declarations of one name over the scope chain global > function > block > inner block:
+    # a declaration is rejected iff the name is already declared in the same scope or in an enclosing *local* scope (only globals may be shadowed)
+    import itertools as _it
+    order = ['global', 'function', 'block', 'inner']
+    nseq = 0
+    for L_ in (2, 3):
+        for seq in _it.product(order, repeat=L_):
+            nseq += 1
+            env_g = ast.Environment.empty(); env_g.add_funcs(builtin_stubs)
+            env_f = env_g.new_child(DT.EMPTY); env_b = env_f.new_child(); env_i = env_b.new_child()
+            scopes = dict(zip(order, (env_g, env_f, env_b, env_i)))
+            declared = set(); got = []; want = []
+            for k, sc in enumerate(seq):
+                visible_local = any(p in declared for p in order[1:order.index(sc) + 1]) if sc != 'global' else False
+                w_ok = not (sc in declared or visible_local)
+                try:
+                    ast.Declaration(ast.Variable('x', DT.INT, False), ast.IntValue(k, SPAN), Cursor(k, 0)).evaluate(scopes[sc]); g_ok = True
+                except TCE:
+                    g_ok = False
+                got.append(g_ok); want.append(w_ok)
+                if g_ok != w_ok: break
+                if g_ok: declared.add(sc)
+            if got != want:
+                bad.append({'case': 'x declared in turn in scopes ' + ' , '.join(seq), 'accepted': got, 'rule_says': want})
     env = fresh_env()
     try:
         ast.VariableLookup(ast.UnresolvedName('nope'), SPAN).evaluate(env); bad.append({'case': 'use of an undeclared name', 'accepted': True})
     except TCE:
         pass
     res.append(result('C07/statements/declarations', bad, t0, 'initialiser must coerce to the declared type (a mutable array cannot initialise a const array variable); '
-                      'redeclaration rejected; globals may be shadowed, locals may not; undeclared names rejected', len(types) ** 2 + 7,
+                      'redeclaration rejected; globals may be shadowed, locals may not; undeclared names rejected', len(types) ** 2 + 7 + nseq,
                       ['hidc.ast.statements.Declaration.evaluate', 'hidc.ast.expressions.VariableLookup.evaluate']))
 
     # ---- return
